@@ -155,6 +155,20 @@ impl SemanticState {
             }
         }
 
+        // Functions are attached to a type while it is resolved, looked up by the type's path.
+        // A block for anything else (an enum, an extern or imported type, a name that is not
+        // declared) would never be looked at: neither checked nor emitted.
+        for block in &module.impls {
+            anyhow::ensure!(
+                module.definitions.iter().any(|definition| {
+                    definition.name == block.name
+                        && matches!(definition.inner, grammar::ItemDefinitionInner::Type(_))
+                }),
+                "the `impl` block for `{}` in module `{path}` is not for a type declared in that module",
+                block.name
+            );
+        }
+
         self.modules.insert(
             path.clone(),
             Module::new(
